@@ -214,6 +214,11 @@ func checkC02(cx *Ctx, r *Report) {
 	// the provider whose endpoints are used is the one the request's Issuer names: looked up under the Issuer, and the
 	// request is accepted only if the Issuer equals that provider's entity ID exactly (shared with C06 / C13)
 	cx.checkLookupByIssuer(r)
+	// what is registered is what the provider's metadata document says: decoding it is strict - a decode error is an
+	// error of NewServiceProvider, not the start of a second, more lenient attempt whose result is used (R-ERR)
+	if ns := w.Func(kNewSP); ns != nil {
+		cx.checkErrDiscipline(r, w.sortedFuncs(w.scopeOf(ns)))
+	}
 	if cx.requireC20(r) {
 		if k := cx.ssoChain(r); k != nil {
 			cx.checkRequiredContent(r, k, vs)
